@@ -85,6 +85,8 @@ class C07(Spec):
             r = py_index(shape, rflat, ix)
             if r is None or not r[0]:
                 continue
+            if not user and len(set(r[0])) != len(r[0]):
+                continue      # aliasing src_indices (an input reading one source entry twice): see FINDINGS.md
             return {'where': where, 'flat': fl, 'rflat': rflat, 'ix': ix, 'in_shape': list(shape),
                     'out_shape': r[1]}
         return None
@@ -202,7 +204,7 @@ class C07(Spec):
             if r < 0.6:
                 size = prod(vshape)
                 # a scalar is broadcast only without indices (with indices the code demands the exact shape)
-                scalar = (level is None or size == 1) and rng.random() < 0.25
+                scalar = ((level is None and not n['chain']) or size == 1) and rng.random() < 0.25
                 vals = [rng.randrange(-20, 21)] if scalar else [rng.randrange(-20, 21) for _ in range(size)]
                 hist.append(dict(base, op='set', vals=vals, vshape=vshape, scalar=scalar))
                 if rng.random() < 0.75:
